@@ -20,7 +20,8 @@ RULE = ('random tables 1..6 x 1..6 (thorough 1..12), density {0,.2,.6,1}, values
         'differing insertion order, type none or vocabulary, table id none/empty/text, group metadata, layout recipes '
         '(dense/csr/csc/coo/lists/stored zeros/unsorted indices, then sort_order/transpose/row+column access/nnz/copy, and '
         'in-place edits through the public matrix_data property: stored zeros, reversed segments, also after a column access = CSC), compress on/off, writer to_hdf5/biom_open/save_table, '
-        'three load paths; plus the UTF-8 decoder on random byte strings and the slash escape on random names; '
+        'three load paths; histories: write-load-write-load, numpy-scalar metadata, an earlier to_hdf5 with custom format_fs, ids given as '
+        'object array / pandas Index / Series / tuple / np.str_ list; plus the UTF-8 decoder on random byte strings and the slash escape on random names; '
         'non-trivial = a table with at least one stored value or metadata, or a multi-byte string; distinct by case hash')
 TRUSTED = ['hand-written model coq/Model/Hdf5.v + coq/Model/Sparse.v tied to biom/table.py by this correspondence run '
            '(raw h5py tree of every written file == model tree; every loaded table == model reader)',
@@ -274,6 +275,8 @@ def classify(case):
         tags.append('h5_axis:%s' % case.get('h5_axis'))
         tags.append('history:%s' % ('write-load-write-load' if case.get('gen2') else 'write-load'))
         tags.append('md-values:%s' % ('numpy scalars' if case.get('np_md') else 'python'))
+        tags.append('ids-given-as:%s' % (case.get('ids_as') or 'list'))
+        tags.append('earlier-write-with-format_fs:%s' % bool(case.get('prelude')))
         tags.append('theorem-domain:%s' % ('inside' if U.in_domain(case) else 'outside'))
     return tags
 
@@ -318,8 +321,9 @@ def shrink(case):
         yield with_spec(layout=['dense'])
     if any(len(i) > 2 or ord(max(i)) > 127 for i in s['oids'] + s['sids'] if i):
         yield with_spec(oids=['o%d' % i for i in range(r)], sids=['s%d' % j for j in range(c)])
-    if case.get('np_md'):
-        yield {k: v for k, v in case.items() if k != 'np_md'}
+    for flag in ('np_md', 'prelude', 'ids_as'):
+        if case.get(flag):
+            yield {k: v for k, v in case.items() if k != flag}
     if case.get('gen2'):
         yield {k: v for k, v in case.items() if k != 'gen2'}
     if case.get('compress'):
